@@ -59,8 +59,14 @@ AllTrees == bad = {}
 \* ---- B1: hyperedge scenarios (terminal sets x junction position x improvement options x follow-up transaction) ----
 \* terminals are shape pins (the statement's quantifier): classes 1 and 2 of three shapes
 TermCat == {<<1, 1, 1>>, <<1, 1, 2>>, <<1, 2, 1>>, <<1, 2, 2>>, <<1, 3, 1>>, <<1, 3, 2>>}
-Scenarios == {[terms |-> SetToSeq(T), jp |-> jp, opts |-> op, follow |-> f] :
+Scenarios0 == {[geo |-> 0, terms |-> SetToSeq(T), jp |-> jp, opts |-> op, follow |-> f] :
                  T \in {T \in SUBSET TermCat : Cardinality(T) \in {3, 4}}, jp \in {<<12, 11>>, <<11, 12>>, <<5, 12>>}, op \in {2, 4, 6, 3}, f \in 0..2}
+\* second geometry: a junction with a shape straight above and below it and two or three shapes further along one line, whose pins face
+\* that line -- several connectors leave the junction along a shared path while others leave in other directions (degree 4..5)
+TermCat1 == {<<1, s, 1>> : s \in 1..5}
+Scenarios1 == {[geo |-> 1, terms |-> SetToSeq(T), jp |-> jp, opts |-> op, follow |-> f] :
+                 T \in {T \in SUBSET TermCat1 : Cardinality(T) \in {4, 5}}, jp \in {<<10, 30>>, <<25, 30>>, <<10, 20>>}, op \in {2, 4, 6, 3}, f \in 0..2}
+Scenarios == Scenarios0 \cup Scenarios1
 GenInit == /\ JsonSerialize(IOEnv.HYPERGEN, SetToSeq(Scenarios)) /\ k = Cardinality(Scenarios) /\ phase = "gen" /\ bad = {}
 GenSpec == GenInit /\ [][UNCHANGED vars]_vars
 =============================================================================
